@@ -449,7 +449,7 @@ def run(chk):
             if b0 != P(zr, "a"):
                 ok, whyu = False, "draws into %s" % sym.show(c_["args"][0])[:80]
         if ok:
-            for kv in (1, 2, 3, 4):
+            for kv in (1, 2, 3, 4, 5, 6, 9):
                 try:
                     seen = sorted(x_[0] for x_ in _conc.visited_tuples(us, lambda c_: (sym.ptr_split(c_["args"][0])[1],), {sym.arrow(P(zk, "params"), "k"): kv}))
                 except _conc.NotEvaluable as e:
